@@ -705,6 +705,12 @@ func (w *watch) update(dirErrors map[string]error, removed ...string) bool {
 	}
 
 	for _, dir = range removed {
+		// We might have just watched the directory again above, if it
+		// got recreated already. Make sure we do not leave a watch around
+		// for a directory we do not consider tracked: a leftover watch
+		// can be shared with another tracked directory and would take
+		// that one down when it gets removed later.
+		w.dropWatch(dir)
 		w.tracked[dir] = false
 		dirErrors[dir] = errors.New("directory removed")
 		update = true
